@@ -352,6 +352,12 @@ def v_covlen0(spec, rng):
 def v_covlen_big(spec, rng):
     if not _need_cons(spec, rng): return False
     spec["cov_len"] = 1.5; spec["len_attr"] = True; return True
+def v_covlen0_nocons(spec, rng):          # out of range also without constraints
+    if spec["cls"] not in DAG_CLASSES or spec["cons"]: return False
+    spec["cov_len"] = rng.choice([0, -0.5]); spec["len_attr"] = rng.random() < 0.5; return True
+def v_covlen_big_nocons(spec, rng):
+    if spec["cls"] not in DAG_CLASSES or spec["cons"]: return False
+    spec["cov_len"] = 1.5; spec["len_attr"] = rng.random() < 0.5; return True
 def v_covlen_no_attr(spec, rng):
     if not _need_cons(spec, rng): return False
     spec["cov_len"] = 0.5; spec["len_attr"] = False; return True
@@ -374,7 +380,7 @@ def v_ign_absent_node(spec, rng):
     spec["ign"] = spec["ign"] + ["zz_absent"]; return True
 
 VIOL = {"cov0_with_len": v_cov0_with_len, "covneg_with_len": v_covneg_with_len, "covbig_with_len": v_covbig_with_len,
-        "covlen0": v_covlen0, "covlen_big": v_covlen_big, "covlen_no_attr": v_covlen_no_attr, "covlen_and_cov": v_covlen_and_cov,
+        "covlen0_nocons": v_covlen0_nocons, "covlen_big_nocons": v_covlen_big_nocons, "covlen0": v_covlen0, "covlen_big": v_covlen_big, "covlen_no_attr": v_covlen_no_attr, "covlen_and_cov": v_covlen_and_cov,
         "nonstr": v_nonstr, "cycle": v_cycle, "nosource": v_nosource, "nosink": v_nosink, "neg": v_neg,
         "missing": v_missing, "noncons": v_noncons, "cons_absent": v_cons_absent, "cons_tuple": v_cons_tuple,
         "cons_empty": v_cons_empty, "cons_item3": v_cons_item3, "cons_itemint": v_cons_itemint, "cons_edgelist_int": v_cons_edgelist_int,
@@ -390,7 +396,8 @@ def violations_for(cls):
     if cls in HAS_WEIGHTS: vs += ["neg", "missing"]
     if cls in IS_FD: vs.append("noncons")
     if cls in HAS_CONS: vs += ["cons_absent", "cons_tuple", "cons_empty", "cons_item3", "cons_itemint", "cons_edgelist_int", "cov0", "covneg", "covbig"]
-    if cls in DAG_CLASSES: vs += ["cov0_with_len", "covneg_with_len", "covbig_with_len", "covlen0", "covlen_big", "covlen_no_attr", "covlen_and_cov"]
+    if cls in DAG_CLASSES: vs += ["cov0_with_len", "covneg_with_len", "covbig_with_len", "covlen0", "covlen_big", "covlen_no_attr", "covlen_and_cov",
+                                  "covlen0_nocons", "covlen_big_nocons"]
     if cls in HAS_K: vs += ["k0", "kneg", "kfloat", "kfloatint"]
     if cls in HAS_WTYPE: vs.append("wtype")
     if cls in HAS_ORIGIN: vs += ["origin", "ign_malformed", "ign_absent_node"]
